@@ -1,4 +1,5 @@
 import PSO.Proofs.RaftDemo
+import PSO.Proofs.BridgeRestart
 
 /-!
 # C06 — a journaled node restarts without forgetting anything it acknowledged (protocol level)
@@ -84,5 +85,36 @@ example : ∃ s, Reachable 3 s ∧ (s.nodes 0).role = .follower ∧ (s.nodes 1).
   | some s =>
     rw [hr] at h; simp at h
     exact ⟨s, reachable_iff_run.mpr ⟨_, hr⟩, h.1, h.2.1, h.2.2⟩
+
+/-- **The implementation's kill + start IS the action `restart`** (handler level, proved; `PSO/Proofs/BridgeRestart.lean`).
+`NodeSend.restartNode s sc dump` = `SyncObj.__init__` on the node's journal file followed by the first tick's
+`__loadDumpFile(clearJournal=False)` (correspondence-tested on the real class: op `restartnode` of
+`corr.nodesend_handlers`).  If the journal holds the dump's two entries (`DumpHeld`; D14/D60), the stored commit index
+and the dump's index are not beyond what the node had reached, then `restart n c a` with
+`c = max sc lastApplied' − 1`, `a = lastApplied' − 1` is enabled and yields exactly the abstraction of the restarted
+node; no other node and no message changes. -/
+theorem restart_handler_refines (x : PSO.NodeSend.Extra) (s : PSO.NodeSend.Node) (sc : Nat)
+    (dump : Option (PSO.NodeSend.Entry × PSO.NodeSend.Entry)) (ghost : List Entry)
+    (hheld : ∀ p l, dump = some (p, l) → PSO.Bridge.DumpHeld s.log p l)
+    (hsc : sc ≤ max s.commit s.lastApplied)
+    (hdump : ∀ p l, dump = some (p, l) → l.idx ≤ max s.commit s.lastApplied)
+    (N n : Nat) (S : State) (habs : S.nodes n = PSO.Bridge.absNodeM ghost x s) :
+    ∃ S', step N S (.restart n (max sc (PSO.NodeSend.restartNode s sc dump).lastApplied - 1)
+              ((PSO.NodeSend.restartNode s sc dump).lastApplied - 1)) = some S' ∧
+      S'.nodes n = PSO.Bridge.absNodeM (PSO.Bridge.restartGhost ghost s dump) (PSO.NodeSend.restartExtra x)
+        (PSO.NodeSend.restartNode s sc dump) ∧
+      (∀ j, j ≠ n → S'.nodes j = S.nodes j) ∧ S'.msgs = S.msgs := by
+  exact PSO.Bridge.restart_refines x s sc dump ghost hheld hsc hdump N n S habs
+
+/-- Non-vacuity: the hypotheses hold for the 3-voter leader killed with a dump at index 3 and stored commit 2. -/
+example : ∃ S', step 3 PSO.Bridge.exStateR (.restart 0 2 2) = some S' ∧ (S'.nodes 0).applied = 2 ∧
+    (S'.nodes 0).log = (PSO.Bridge.exStateR.nodes 0).log := by
+  obtain ⟨S', h1, h2, _, _⟩ := restart_handler_refines PSO.Bridge.exExtraR PSO.Bridge.exLeaderR 2
+    (some (PSO.Bridge.exLogS[1]!, PSO.Bridge.exLogS[2]!)) []
+    (by intro p l h; cases h; unfold PSO.Bridge.DumpHeld; decide) (by decide) (by intro p l h; cases h; decide)
+    3 0 PSO.Bridge.exStateR rfl
+  refine ⟨S', h1, ?_⟩
+  rw [h2]
+  decide
 
 end PSO.C06
